@@ -26,7 +26,7 @@ var suitesByProp = map[string][]func(*runner, *rng){
 	"C17": {suiteSchedules},
 	"C19": {suiteDeterminism},
 	"C08": {suiteTotality},
-	"C06": {suiteTeletext},
+	"C06": {suiteTeletext, suiteTeletextModel},
 	"C07": {suiteConvert, suiteConvertModel, suiteConvertOps, suiteConvertCLI, suiteConvertRich},
 	"C20": {suiteConcurrency},
 	"C18": {suiteFaults},
